@@ -107,6 +107,9 @@ def eval_tree(tree, seqs, alphabet, agg, shared=False):
         agg.case({"pattern": tj, "seq": None}, True, "build:timeout", sample=False)
         return [("build-does-not-terminate", {"api": "build", "error": "timeout"}, None,
                  f"building the matcher for {R.show(tree)} did not finish in {BUILD_LIMIT_S}s")]
+    except Exception as e:  # noqa - building a matcher for a well-formed pattern must not fail at all
+        agg.case({"pattern": tj, "seq": None}, True, "build:raised", sample=False)
+        return [("build-raises", {"api": "build", "error": type(e).__name__}, None, f"building the matcher for {R.show(tree)} raises {e!r}")]
     out = []
     # (b) product reachability
     prod, nstates = _product(tree, ref, alphabet, agg, tj, mk)
@@ -203,6 +206,10 @@ def atom_kinds():
         "valueattr": ({"a": "a", "b": Letter.A, "c": "c"}, {}),
         # token predicates of different classes that compare the same text: ':' as punctuation, as operator, as keyword
         "tokenpreds": ({"a": Symbol(":"), "b": Operator(":"), "c": Keyword(":")}, {"a": tok("p::"), "b": tok("op::"), "c": tok("kw::")}),
+        # every occurrence of a letter in the pattern is a fresh, equal-but-distinct predicate object
+        "freshpreds": ({"a": real.AtomFactory(lambda: OneOf("a")), "b": real.AtomFactory(lambda: OneOf("b")), "c": "c"}, {"a": "a", "b": "b", "c": "c"}),
+        # items that are falsy in Python: the number 0 and the empty string are ordinary alphabet items
+        "falsy": ({"a": 0, "b": "", "c": "x"}, {}),
         "words": (WORD_ATOMS, {}),
         # distinct, disjoint atoms whose printed form is identical
         "samelabel": ({"a": 1, "b": "1", "c": "x"}, {}),
@@ -215,10 +222,37 @@ LONG_PATTERNS = [("cat", ("star", ("a",)), ("b",)), ("cat", ("plus", ("cat", ("a
 LONG_LENGTHS = [255, 256, 257, 511, 512, 513, 1023, 1024, 1025, 2100]
 
 
+def _phrase(n):
+    """a fixed phrase of n items (a b a b ...) as a right-nested cat, optionally repeated"""
+    t = ("a",) if (n - 1) % 2 == 0 else ("b",)
+    for i in range(n - 2, -1, -1):
+        t = ("cat", ("a",) if i % 2 == 0 else ("b",), t)
+    return t
+
+
 def _block_long(block, agg):
-    """long inputs: the shortest matching prefix / the whole word lies beyond any small window"""
+    """long inputs: the shortest matching prefix / the whole word lies beyond any small window; and LONG PATTERNS (fixed phrases of
+    63..260 items: automata with that many states)"""
     from codelimit.common.gsm import matcher
 
+    for n in (63, 64, 65, 66, 127, 128, 129, 200, 260):
+        for tree, label in ((_phrase(n), "phrase"), (("plus", _phrase(n)), "phrase+"), (("cat", ("opt", ("c",)), _phrase(n)), "c?phrase")):
+            word = "".join("ab"[i % 2] for i in range(n))
+            for seq, exp in ((word, True), (word[:-1], False), (word + "a", label == "phrase+" and False), (word + word, label == "phrase+")):
+                case = {"long": [label, n], "pattern": None}
+                agg.case({"long_pattern": [label, n, len(seq)]}, True, exp, sample=False)
+                for api in ("match", "nfa_match"):
+                    try:
+                        got = bool(getattr(matcher, api)(top_expr(tree), list(seq)))
+                    except RecursionError:
+                        agg.violation("api-recursion", {"api": api, "error": "RecursionError", "family": "long-pattern"}, case, f"{label} of {n} items")
+                        continue
+                    except Exception as e:  # noqa
+                        agg.violation("api-exception", {"api": api, "error": type(e).__name__, "family": "long-pattern"}, case, repr(e))
+                        continue
+                    if got != exp:
+                        agg.violation("membership-mismatch", {"api": api, "dir": "false-accept" if got else "false-reject", "family": "long-pattern"}, case,
+                                      f"{label} of {n} items on a word of {len(seq)} items: expected {exp}")
     for tree in LONG_PATTERNS:
         ref = R.compile_tree(tree)
         for n in LONG_LENGTHS:
@@ -255,7 +289,7 @@ def _block(block, agg):
         return
     if block[0] == "long":
         return _block_long(block, agg)
-    if block[0] in ("words", "samelabel", "predicates", "valueattr", "tokenpreds"):
+    if block[0] in ("words", "samelabel", "predicates", "valueattr", "tokenpreds", "freshpreds", "falsy"):
         pat_atoms, seq_items = atom_kinds()[block[0]]
         real.ATOMS.clear()
         real.SEQ.clear()
@@ -414,7 +448,7 @@ def run(ctx: core.Ctx):
         n = len(R.trees(size, "abc"))
         step = max(1, n // ctx.workers + 1)
         for lo in range(0, n, step):
-            for kind in ("words", "samelabel", "predicates", "valueattr", "tokenpreds"):
+            for kind in ("words", "samelabel", "predicates", "valueattr", "tokenpreds", "freshpreds", "falsy"):
                 blocks.append((kind, "abc", size, lo, min(n, lo + step), "abc", 4 if kind == "words" else 3))
     # one operand object used twice in a pattern, the expression object reused for every call
     body_size = ctx.pick(3, 4)
@@ -425,6 +459,12 @@ def run(ctx: core.Ctx):
         blocks.append(("shared", body_size, lo, min(nsh, lo + step), "abc", ctx.pick(3, 4)))
     blocks.append(("long",))
     ctx.bounds["long_inputs"] = {"patterns": [R.show(t) for t in LONG_PATTERNS], "lengths": LONG_LENGTHS}
+    # fresh-object atoms need patterns in which one letter is reachable at two positions at once (a|ab, (ab)?ac ...): sizes 4-5 over {a, b}
+    for size in (4, 5):
+        n = len(R.trees(size, "ab"))
+        step = max(1, n // ctx.workers + 1)
+        for lo in range(0, n, step):
+            blocks.append(("freshpreds", "ab", size, lo, min(n, lo + step), "ab", 4))
     ctx.bounds["word_atoms"] = {k: repr(v) for k, v in WORD_ATOMS.items()}
     ctx.bounds["other_atom_kinds"] = {"samelabel": "1, '1', 'x' (two atoms print alike)", "predicates": "client-defined Predicate objects OneOf{a,A}, OneOf{b} and a plain item"}
     pair_size = 4  # 160 trees -> 25 440 ordered pairs (size 5 would be 655 000 forked children)
